@@ -27,6 +27,8 @@ fn main() {
         ("c04", "record") => yv::c04::record(&args),
         ("c04", "replay") => yv::c04::replay(&args),
         ("c18", "record") => yv::c18::record(&args),
+        ("c19", "record") => yv::c19::record(&args),
+        ("c19", "replay") => yv::c19::replay(&args),
         ("c18", "replay") => yv::c18::replay(&args),
         ("c16", "record") => yv::c16::record(&args),
         ("c16", "replay") => yv::c16::replay(&args),
